@@ -100,14 +100,42 @@ def Scn.truthy (s : Scn) : Val → Bool := fun v =>
   | some (_, falsy, _) => !falsy
   | none => true
 
+/-- Cantor pairing; list values (an event's list result handed back by an event used as a callback) are encoded
+injectively as tokens `≥ 1000`: `1000 + enc vs`, `enc [] = 0`, `enc (v :: vs) = pair v (enc vs) + 1` -/
+def pair (a b : Nat) : Nat := (a + b) * (a + b + 1) / 2 + b
+def unpair (z : Nat) : Nat × Nat :=
+  let w := (Nat.sqrt (8 * z + 1) - 1) / 2
+  let t := w * (w + 1) / 2
+  (w - (z - t), z - t)
+def encList : List Nat → Nat
+  | [] => 0
+  | v :: vs => pair v (encList vs) + 1
+partial def decList (n : Nat) : List Nat :=
+  if n == 0 then [] else
+    let (v, r) := unpair (n - 1)
+    v :: decList r
+
+/-- the token whose Python value is `None` -/
+def Scn.noneTok (s : Scn) : Val :=
+  match s.toks.find? (fun t => t.2.2 == "None") with
+  | some (v, _, _) => v
+  | none => 0
+
+def Scn.resVal (s : Scn) : Res → Val
+  | .none => s.noneTok
+  | .one v => v
+  | .many vs => 1000 + encList vs
+
 def Scn.machine (s : Scn) : Machine :=
   { states := s.states.toList, behav := s.behav, truthy := s.truthy, allow := s.allow,
-    startValue := s.startValue }
+    startValue := s.startValue, resVal := s.resVal }
 
-def Scn.reprV (s : Scn) (v : Val) : String :=
+partial def Scn.reprV (s : Scn) (v : Val) : String :=
   match s.toks.find? (·.1 == v) with
   | some (_, _, r) => r
-  | none => s!"v{v}"
+  | none =>
+    if v ≥ 1000 then "[" ++ ",".intercalate ((decList (v - 1000)).map s.reprV) ++ "]"
+    else s!"v{v}"
 
 def groupOf (g : String) : Reg.Group :=
   match g with
@@ -178,7 +206,7 @@ def addLine (s : Scn) (toks : List String) : Scn :=
     let row : ActRow :=
       { cb := natOf (look kv "cb"), lo := natOf (look kv "lo"), hi := natOf (look kv "hi"),
         act := { ret := natOf (look kv "ret"), raises := optNat (look kv "raise"),
-                 sends := natList (look kv "sends") } }
+                 sends := natList (look kv "sends"), retSend := boolOf (look kv "retsend") } }
     { s with acts := s.acts.push row }
   | "variant" :: _ => { s with variants := s.variants.push s.states, states := #[] }
   | "op" :: "allowed" :: _ => { s with ops := s.ops.push .allowed }
@@ -333,7 +361,7 @@ def runC01Mon (s : Scn) : List String :=
         if (out m st).any (fun tr => tr.conds.any fun p => (act p.1).raises.isSome) then
           some s!"mon {look kv "i"} skip guard-raises"
         else
-        let verdict : Bool × String := match choose s.truthy act ev (out m st) with
+        let verdict : Bool × String := match choose m act ev (out m st) with
           | .abort x => (outS == s!"err:user:{x}" && post == pre, s!"abort user:{x} state-unchanged")
           | .notAllowed =>
             if s.allow then (outS.startsWith "ok" && post == pre, "ignored state-unchanged")
